@@ -448,11 +448,36 @@ impl TypedScenario for C08E2E {
     }
 }
 
+/// Streams opened when only a few bytes of the acceptor's connection-level credit are left (an
+/// unread bulk stream has eaten the window down to a residue of 0-120 bytes): each of them is
+/// still returned by accept with exactly its own bytes. C01's end-to-end scenario in its
+/// "credit residue" mode, reported under C08.
+pub struct C08Residue;
+
+impl TypedScenario for C08Residue {
+    type Plan = crate::props::c01::Plan;
+    fn name(&self) -> &'static str {
+        "e2e-credit-residue"
+    }
+    fn budget(&self, tier: Tier) -> usize {
+        match tier {
+            Tier::Quick => 2500,
+            Tier::Thorough => 250_000,
+        }
+    }
+    fn generate(&self, seed: u64, _index: usize, tier: Tier) -> Self::Plan {
+        crate::props::c01::gen_plan_mode(seed ^ 0xc08, false, tier, true)
+    }
+    fn execute(&self, plan: &Self::Plan, trace: bool) -> Exec {
+        crate::props::c01::execute(plan, trace).relabel("C01/", "C08/")
+    }
+}
+
 pub fn def() -> PropertyDef {
     PropertyDef {
         id: "C08",
-        scenarios: vec![Box::new(Typed(C08E2E { faulty: false })), Box::new(Typed(C08E2E { faulty: true }))],
-        rule: "Each run: real client and server with a concurrent-stream limit of 4/5/8/16; the opener (client or server) opens 1..2x (quick) / 1..3x (thorough) the limit streams (all uni, all bidi or mixed; in one burst or spread over 100 ms), each carrying a unique tag of 14..2000 bytes, and finishes them; the other side accepts with 1-4 tasks per kind, each with its own start time (in a fifth of the runs nobody accepts for the first 6-12 s), per-call delay (0..40 ms, up to 700 ms in those runs) and a cycle of deadlines (0 = polled exactly once, 1 us .. 30 ms, or none) after which the pending accept future is dropped and reissued; in a third of the runs all but one task per kind leave after 1-3 streams or at their first deadline (the task that polled last must not take the next wake-up with it); in a quarter of the runs the opener first sends 2-6 datagrams that nobody reads, and in another quarter it abandons 1-2 openings between their two awaits (streams that end without a byte). Oracle (bag model over the recorded history): every value returned by an accept call is a stream the peer opened, of the right kind, returned exactly once; every opened stream is returned within 120 s simulated; the bytes read from it are the tag it was opened with. Fault batch: loss / duplication / reordering (a connection killed by the faults is inconclusive). Probe: number of accept calls cancelled. Non-trivial = at least one stream opened (and a fault fired in the fault batch); distinct = distinct plan hashes.",
+        scenarios: vec![Box::new(Typed(C08E2E { faulty: false })), Box::new(Typed(C08E2E { faulty: true })), Box::new(Typed(C08Residue))],
+        rule: "Each run: real client and server with a concurrent-stream limit of 4/5/8/16; the opener (client or server) opens 1..2x (quick) / 1..3x (thorough) the limit streams (all uni, all bidi or mixed; in one burst or spread over 100 ms), each carrying a unique tag of 14..2000 bytes, and finishes them; the other side accepts with 1-4 tasks per kind, each with its own start time (in a fifth of the runs nobody accepts for the first 6-12 s), per-call delay (0..40 ms, up to 700 ms in those runs) and a cycle of deadlines (0 = polled exactly once, 1 us .. 30 ms, or none) after which the pending accept future is dropped and reissued; in a third of the runs all but one task per kind leave after 1-3 streams or at their first deadline (the task that polled last must not take the next wake-up with it); in a quarter of the runs the opener first sends 2-6 datagrams that nobody reads, and in another quarter it abandons 1-2 openings between their two awaits (streams that end without a byte). Oracle (bag model over the recorded history): every value returned by an accept call is a stream the peer opened, of the right kind, returned exactly once; every opened stream is returned within 120 s simulated; the bytes read from it are the tag it was opened with. e2e-credit-residue: C01's end-to-end transfer in its credit-residue mode (an unread bulk stream leaves 0-120 bytes of connection credit when further streams are opened): every stream is still delivered once with its own bytes. Fault batch: loss / duplication / reordering (a connection killed by the faults is inconclusive). Probe: number of accept calls cancelled. Non-trivial = at least one stream opened (and a fault fired in the fault batch); distinct = distinct plan hashes.",
         assumptions: vec![
             "current-thread runtime only: parallel acceptors are modelled as interleavings at await points (the multi-thread half of the quantifier cannot be made replayable and is not claimed)",
             "quinn/rustls/tokio executed for real but trusted",
